@@ -17,6 +17,7 @@ import mc.env as env  # noqa: F401  (NumPy shim first)
 import itertools
 import json
 import os
+import time
 
 from mc import c14_model as M
 from metador_core.schema.partial import PartialModel
@@ -413,8 +414,21 @@ def run_case(case):
     raise KeyError(k)
 
 
+def _legal(F, v):
+    """Schemas do not accept empty strings (min_anystr_length=1)."""
+    if isinstance(v, str):
+        return F == "plain" or v != ""
+    if isinstance(v, dict):
+        return all(_legal(F, x) for x in v.values())
+    if isinstance(v, list):
+        return all(_legal(F, x) for x in v)
+    return True
+
+
 def case_applicable(case):
     F, cid = case["factory"], case["cls"]
+    if not _legal(F, case["specs"]):
+        return False
     if case["kind"] == "harvest":
         return F == "schema" and all(M.applicable("harvester", F, cid, s) for s in case["specs"])
     return all(M.applicable(m, F, cid, s) for s, m in zip(case["specs"], case["modes"]))
@@ -424,8 +438,19 @@ def _mk_case(kind, F, cid, specs, modes, ow):
     return {"kind": kind, "factory": F, "cls": cid, "specs": list(specs), "modes": list(modes), "ow": bool(ow)}
 
 
-def _pkey(f):
-    return (f["law"], f["field_kind"], f["expected"], f["observed"])
+def nested_classes(specs):
+    """Classes met at each nested-model position (top level) of a case, in operand order."""
+    out = []
+    fields = sorted({f for s in specs for f, v in s.items() if isinstance(v, dict) and "M" in v})
+    for f in fields:
+        cs = [s[f]["M"] if isinstance(s.get(f), dict) and "M" in s[f] else "-" for s in specs]
+        if sum(c != "-" for c in cs) >= 2:
+            out.append(f + ":" + "|".join(cs))
+    return ",".join(out)
+
+
+def _pkey(f, specs):
+    return (f["law"], f["field_kind"], f["expected"], f["observed"], nested_classes(specs))
 
 
 class _Acc:
@@ -434,16 +459,18 @@ class _Acc:
     def __init__(self):
         self.stats = {"cases": 0, "merges": 0, "ok": 0, "err": 0}
         self.found = {}
+        self.t0 = time.process_time()
 
     def add(self, case_args, finds):
         self.stats["cases"] += 1
         for f in finds:
-            k = _pkey(f)
+            k = _pkey(f, case_args[3])
             if k not in self.found:
                 self.found[k] = (_mk_case(*case_args), f)
 
     def result(self, **extra):
         r = dict(self.stats)
+        r["cpu_s"] = time.process_time() - self.t0
         r["found"] = [[list(k), c, f] for k, (c, f) in self.found.items()]
         r.update(extra)
         return r
@@ -555,6 +582,21 @@ def _reductions(spec):
 
 def _value_reductions(v):
     if not isinstance(v, dict):
+        # scalars: towards the falsy representative of their type
+        if isinstance(v, bool):
+            if v:
+                yield False
+        elif isinstance(v, int):
+            if v != 0:
+                yield 0
+        elif isinstance(v, float):
+            if v != 0.0:
+                yield 0.0
+        elif isinstance(v, str):
+            if len(v) > 1:
+                yield v[:1]
+            if v:
+                yield ""
         return
     if "L" in v and v["L"]:
         yield {"L": v["L"][:-1]}
